@@ -58,6 +58,7 @@ type c04Kinds struct {
 	Fn    func()
 	Any   interface{}
 	Inner C04Base
+	Mixed []interface{}
 }
 
 func c04RecA() interface{} {
@@ -80,6 +81,8 @@ func c04RecB() interface{} {
 
 func c04Obj(v interface{}) object.Object {
 	switch x := v.(type) {
+	case object.Object:
+		return x
 	case nil:
 		return &object.Null{}
 	case int:
@@ -153,10 +156,17 @@ func TestRAC_C04(t *testing.T) {
 	when := time.Unix(1234567890, 0)
 	base := C04Base{Name: "base-name", Count: 77, Extra: 2.5}
 	kinds := c04Kinds{Int: -3, I64: 1 << 40, F32: 0.5, F64: 1e16, S: "héllo", B: true, T: when, IS: []int{3, 1, 2}, SS: []string{"b", "a", ""}, FS: []float64{1.5, -2}, BS: []bool{true, false},
-		Empty: []string{}, M: map[string]interface{}{"k": 1, "s": "v", "n": map[string]interface{}{"x": 2.5}}, I8: 4, U: 5, P: &one, Any: 3, Inner: base}
+		Empty: []string{}, M: map[string]interface{}{"k": 1, "s": "v", "n": map[string]interface{}{"x": 2.5}}, I8: 4, U: 5, P: &one, Any: 3, Inner: base,
+		Mixed: []interface{}{1, map[string]interface{}{"x": "y"}, 3, nil, "s", []int{1}, 2.5, uint8(7), true}}
 	kindsWant := map[string]interface{}{"Int": -3, "I64": int64(1 << 40), "F32": float32(0.5), "F64": 1e16, "S": "héllo", "B": true, "T": when, "IS": []int{3, 1, 2}, "SS": []string{"b", "a", ""},
 		"FS": []float64{1.5, -2}, "BS": []bool{true, false}, "Empty": []string{}, "M": kinds.M}
-	kindsFree := map[string][]interface{}{"I8": {4}, "U": {5}, "P": {1}, "Ch": nil, "Fn": nil, "Any": {3}, "Inner": nil}
+	x1 := &object.String{Value: "x"}
+	mixedNull := &object.Array{Elements: []object.Object{&object.Integer{Value: 1}, &object.Null{}, &object.Integer{Value: 3}, &object.Null{}, &object.String{Value: "s"}, &object.Null{},
+		&object.Float{Value: 2.5}, &object.Null{}, &object.Boolean{Value: true}}}
+	mixedFull := &object.Array{Elements: []object.Object{&object.Integer{Value: 1}, &object.Hash{Pairs: map[object.HashKey]object.HashPair{x1.HashKey(): {Key: x1, Value: &object.String{Value: "y"}}}},
+		&object.Integer{Value: 3}, &object.Null{}, &object.String{Value: "s"}, &object.Array{Elements: []object.Object{&object.Integer{Value: 1}}}, &object.Float{Value: 2.5}, &object.Integer{Value: 7}, &object.Boolean{Value: true}}}
+	// members the engine cannot represent are null (or, should it learn to, converted): the others keep their positions
+	kindsFree := map[string][]interface{}{"Mixed": {mixedNull, mixedFull}, "I8": {4}, "U": {5}, "P": {1}, "Ch": nil, "Fn": nil, "Any": {3}, "Inner": nil}
 	cases := []c04Case{
 		{"struct, own fields declared before the embedded struct", c04OwnFirst{Name: "own", Count: 1, C04Base: base},
 			map[string]interface{}{"Name": "own", "Count": 1}, map[string][]interface{}{"Extra": {2.5}, "C04Base": nil}},
@@ -176,7 +186,7 @@ func TestRAC_C04(t *testing.T) {
 		{"nil object", nil, map[string]interface{}{}, nil},
 		{"record type A again", c04RecA(), map[string]interface{}{"Failures": 3, "Limit": 5, "Host": "a"}, nil},
 	}
-	names := []string{"Name", "Count", "Extra", "C04Base", "Int", "I64", "F32", "F64", "S", "B", "T", "IS", "SS", "FS", "BS", "Empty", "M", "I8", "U", "P", "Ch", "Fn", "Any", "Inner", "Failures", "Limit", "Host", "Nothing"}
+	names := []string{"Name", "Count", "Extra", "C04Base", "Int", "I64", "F32", "F64", "S", "B", "T", "IS", "SS", "FS", "BS", "Empty", "M", "I8", "U", "P", "Ch", "Fn", "Any", "Inner", "Mixed", "Failures", "Limit", "Host", "Nothing"}
 	add := func(kind, script, input, want, got string) {
 		if len(rep.Violations) < 16 {
 			rep.Violations = append(rep.Violations, racVio{Kind: kind, Script: script, Input: input, Expected: want, Got: got})
